@@ -167,6 +167,34 @@ func c16Links(r *ev.Result, base string) {
 			}
 		}
 	}
+	/* Base names with more than one dot: the extension is what follows the
+	last one. */
+	dotted := filepath.Join(root, "dotted")
+	os.MkdirAll(dotted, 0o755)
+	names := []string{"ps.bsd.pl", "ps.linux.pl", "a.b.c.pl", "v1.2.pl"}
+	for k, name := range names {
+		os.WriteFile(filepath.Join(dotted, name), []byte(c16ConvScripts[k%len(c16ConvScripts)]), 0o644)
+	}
+	for k, name := range names {
+		c := c16Case{Class: "dotted-name", Script: c16ConvScripts[k%len(c16ConvScripts)], Shell: name}
+		out, err := shellfuncsfile.NewDefaultConverter().From(filepath.Join(dotted, name))
+		n++
+		if nil != err {
+			r.Violate(ev.Violation{Signature: "static/conversion-failed/dotted-name", What: fmt.Sprintf("single file %s: %v", name, err), Kind: "c16conv", Replay: c})
+			continue
+		}
+		c16Static(r, c, name, out)
+	}
+	if out, err := shellfuncsfile.NewDefaultConverter().From(dotted); nil != err {
+		r.Violate(ev.Violation{Signature: "static/conversion-failed/dotted-name", What: fmt.Sprintf("directory of %v: %v", names, err), Kind: "c16conv", Replay: c16Case{Class: "dotted-name", Shell: "directory"}})
+	} else {
+		n++
+		for _, name := range names {
+			if fn := strings.TrimSuffix(name, ".pl") + "() {"; 1 != strings.Count("\n"+string(out), "\n"+fn) {
+				r.Violate(ev.Violation{Signature: "static/head/dotted-name", What: fmt.Sprintf("directory of %v: the payload does not define %q exactly once", names, fn), Kind: "c16conv", Replay: c16Case{Class: "dotted-name", Shell: "directory"}})
+			}
+		}
+	}
 	r.Add(n)
 	r.AddDistinct(n)
 	r.Set("linked_script_conversions", n)
